@@ -613,16 +613,21 @@ Proof.
   destruct E1 as [ts ->]. destruct E2 as [d ->]. eauto.
 Qed.
 
-(** every batch within the guards is sent whole, in order, each span recoverable *)
+(** every non-empty batch within the guards is sent whole, in order, each span recoverable;
+    the empty batch sends nothing *)
+Lemma zipkin_all_ok l : forallb zspan_guard l = true ->
+  exists obs, all_some (map zipkin_span l) = Some obs /\ zip_all zspan_same l obs = true.
+Proof.
+  induction l as [|s l IH]; [exists []; split; reflexivity|].
+  cbn [forallb]. intros G. apply andb_true_iff in G as [G1 G2]. destruct (IH G2) as (obs & E & Z).
+  destruct (zipkin_span_some s G1) as [o Ho]. exists (o :: obs). cbn [map all_some]. rewrite Ho, E. split; [reflexivity|].
+  cbn. now rewrite (zipkin_span_ok s o G1 Ho).
+Qed.
 Lemma zipkin_batch_ok l : zipkin_spec l (zipkin_batch l) = true.
 Proof.
   unfold zipkin_spec. destruct (forallb zspan_guard l) eqn:G; [|reflexivity].
-  unfold zipkin_batch. induction l as [|s l IH]; [reflexivity|].
-  cbn [forallb] in G. apply andb_true_iff in G as [G1 G2]. specialize (IH G2).
-  cbn [map all_some]. destruct (zipkin_span_some s G1) as [o Ho]. rewrite Ho.
-  destruct (all_some (map zipkin_span l)) as [obs|] eqn:E.
-  - cbn. rewrite (zipkin_span_ok s o G1 Ho). exact IH.
-  - cbn in IH. destruct l; [discriminate E | discriminate IH].
+  destruct l as [|s l]; [reflexivity|]. unfold zipkin_batch.
+  destruct (zipkin_all_ok (s :: l) G) as (obs & E & Z). now rewrite E.
 Qed.
 
 (** * From the grouping invariant to the specification's reading of a decoded payload *)
@@ -939,7 +944,7 @@ Lemma metric_roundtrip_as_is m : metric_valid m = true -> metric_guard m = true 
   exists p, metric_pb m = Some p /\ metric_of_pb p = Some (canon_metric lax_F5 m).
 Proof.
   destruct m as [nm ds un d]. unfold metric_valid, metric_guard, metric_pb, metric_of_pb, canon_metric. cbn [m_data m_name m_desc m_unit].
-  destruct d as [l|l t mono|l t|l t|l]; cbn [temp_of mdata_pb canon_mdata]; intros V G.
+  destruct d as [l|l t mono|l t|l t|l|]; cbn [temp_of mdata_pb canon_mdata]; intros V G; [| | | | |discriminate V].
   - eexists. split; [reflexivity|]. cbn.
     rewrite (opt_map_all_map dpoint_of_pb dpoint_pb canon_dp); [reflexivity|].
     intros d Hd. apply dp_roundtrip. eapply forallb_forall; eauto.
@@ -959,7 +964,7 @@ Qed.
 Lemma metric_invalid_dropped m : metric_valid m = false -> metric_pb m = None.
 Proof.
   destruct m as [nm ds un d]. unfold metric_valid, metric_pb. cbn [m_data].
-  destruct d as [l|l t mono|l t|l t|l]; cbn [temp_of mdata_pb]; intros V; try discriminate;
+  destruct d as [l|l t mono|l t|l t|l|]; cbn [temp_of mdata_pb]; intros V; try discriminate; try reflexivity;
     rewrite (temp_invalid t V); reflexivity.
 Qed.
 
@@ -968,7 +973,7 @@ Definition no_zero_threshold (m : metric) : Prop :=
 Lemma canon_metric_strict m : no_zero_threshold m -> canon_metric lax_F5 m = canon_metric strict m.
 Proof.
   destruct m as [nm ds un d]. unfold no_zero_threshold, canon_metric. cbn [m_data m_name m_desc m_unit].
-  destruct d as [l|l t mono|l t|l t|l]; try reflexivity. intros H. cbn [canon_mdata]. do 2 f_equal.
+  destruct d as [l|l t mono|l t|l t|l|]; try reflexivity. intros H. cbn [canon_mdata]. do 2 f_equal.
   apply map_ext_in. intros p Hp. unfold canon_ep. cbn [lax_zero_thr lax_F5 strict]. now rewrite (H p Hp).
 Qed.
 
@@ -989,7 +994,7 @@ Lemma metric_same_as_is m : metric_same lax_F5 (canon_metric lax_F5 m) m = true.
 Proof.
   unfold metric_same. destruct (metric_guard m); [|reflexivity]. apply eqb_of_true.
   destruct m as [nm ds un d]. unfold norm_metric, canon_metric. cbn [m_data m_name m_desc m_unit].
-  destruct d as [l|l t mono|l t|l t|l]; try reflexivity. cbn [canon_mdata lax_zero_thr lax_F5].
+  destruct d as [l|l t mono|l t|l t|l|]; try reflexivity. cbn [canon_mdata lax_zero_thr lax_F5].
   do 2 f_equal. rewrite map_map. apply map_ext. intros p. reflexivity.
 Qed.
 
@@ -1015,7 +1020,7 @@ Proof.
   intros H. unfold metric_same. destruct (metric_guard m); [|reflexivity]. apply eqb_of_true.
   rewrite (canon_metric_strict m H).
   destruct m as [nm ds un d]. unfold norm_metric, canon_metric. cbn [m_data m_name m_desc m_unit].
-  destruct d as [l|l t mono|l t|l t|l]; reflexivity.
+  destruct d as [l|l t mono|l t|l t|l|]; reflexivity.
 Qed.
 Lemma metric_faithful rm :
   (forall sm, In sm (snd rm) -> forallb metric_guard (snd sm) = true) ->
